@@ -99,7 +99,7 @@ def selftest() -> None:
     assert match("&#13;&#10;", 0, "\r\n", ATTR_META) == {10}
     assert match("\n", 0, "\n", ATTR_META) == set()
     assert match("ab", 0, "a") == {1}
-    assert match("&amp;", 0, "&", frozenset(), ATTR_META) == {5}
+    assert match("&amp;", 0, "&", frozenset(), ATTR_META) == {1, 5}
     assert match("&amp;", 0, "&amp;", frozenset(), ATTR_META) == {5}
     assert match("&amp;&amp;", 0, "&&") == {10}
     assert match("&lt;", 0, "&lt;") == set()
